@@ -11,10 +11,10 @@ under ThreadSanitizer (checks/c18.py).
 
 The *ideal* per-run obligation is `no_shared_writes : MirVerif.Gen.C18.sharedWrites = []`.
 
-It is FALSE on the current tree (DESIGN §6 #15 and one more object found by this inventory):
-`addr_offset8/16/32` (mir-interp.c, assigned in `interp_init`), `patterns[i].max_insn_size`
-(mir-gen-x86_64.c, assigned in `patterns_init`), `curr_func`/`curr_temp` (mir2c/mir2c.c) and c2mir's
-`VOID_TYPE` (lazily laid out through `&VOID_TYPE` by `set_type_layout`).  Its negation is not stated
+It is still FALSE on the current tree: mir2c keeps `curr_func`/`curr_temp` (mir2c/mir2c.c) in
+file-scope statics.  (`addr_offset8/16/32`, `patterns[i].max_insn_size` and c2mir's lazily laid out
+`VOID_TYPE` were further exceptions until they were repaired in /repo; they are no longer allowed.)
+Its negation is not stated
 as a theorem because it has to become false again as soon as the objects are repaired; instead
 `inventory_sites_allowed` pins the *exact* exception list (`Footprint.knownFindings`, each a known
 finding reported by the check on every run while it is present), and the property theorem is proved
